@@ -1379,3 +1379,31 @@ for _n in ("__mul__", "mul_add"):
         _c = MethodContract(EC_MOD + "PointJacobi." + _n, [], None, None, props=("C07",))
         _c.applied_only = True
         REGISTRY[_c.qual] = _c
+
+
+# ---- CurveFp.contains_point: the curve equation (used by Public_key.__init__, Point.__init__) -------------------------------
+def _cp_setup(ex, F):
+    curve = mk_curve(ex, F)
+    return {"self": curve, "x": F.atom("x", "free"), "y": F.atom("y", "free")}
+
+
+def _cp_post(ex, F, env, out, snap):
+    if out[0] != "ret":
+        yield "no-escape", False, "raised %s" % (out[1],)
+        return
+    x, y = env["x"], env["y"]
+    eqn = y.res ** 2 - (x.res ** 3 + F.a.res * x.res + F.b.res)
+    on = F.decide_zero(eqn)
+    yield "true-iff-curve-equation", isinstance(out[1], bool) and out[1] == on, "returned %r, y^2 - (x^3 + a x + b) == 0 (mod p) is %r" % (out[1], on)
+    yield "frame", *frame_ok(env, snap, set())
+
+
+def _cp_apply(ex, F, vals, line):
+    x, y = vals["x"], vals["y"]
+    x = x if isinstance(x, FInt) else F.const(x)
+    y = y if isinstance(y, FInt) else F.const(y)
+    c = vals["self"]
+    return F.decide_zero(y.res ** 2 - (x.res ** 3 + c.fields["_CurveFp__a"].res * x.res + c.fields["_CurveFp__b"].res))
+
+
+method("contains_point", [("any-x-y", _cp_setup)], _cp_post, _cp_apply, props=("C06", "C08"), cls="CurveFp")
